@@ -13,11 +13,13 @@
      size_word, offset_word, rate_word      these languages are inside CWord
      proxy_buffers_safe       two words: structurally empty from token start, ends in QBare
      time_safe                structurally empty from token start
-     ing_rewrite_fixed_safe, grpc_service_fixed_safe, ts_hash_fixed_safe, sticky_fixed_safe
-                              the repaired languages are safe at their sites
+     ing_rewrite_safe         the rewrite path of nginx.org/rewrites, glued into a bare word, emits no event
+                              and stays in the bare word (holds since the repair of F27 in /repo)
+     limit_req_key_bare_safe  nginx.org/limit-req-key at token start: one non-empty bare word, no event
+     ing_rate_word, http_header_name_word     inside CWord
+     grpc_service_fixed_safe, ts_hash_fixed_safe, sticky_fixed_safe
+                              the languages a repair of F54 / F29 / F28 would use are safe at their sites
    REFUTED (findings)
-     ing_rewrite_refuted      F27: slash x backslash is accepted; glued into a bare word it ends in
-                              QBareEsc, so the template's next byte (the semicolon) is swallowed
      ing_path_refuted         F06: slash left-brace is accepted and emits Open after  location
      ing_path_refuted_bs      F06: slash x backslash ends with an escape pending (the next byte is taken
                               literally; after  location  that byte is a space, so the structure survives)
@@ -153,8 +155,27 @@ Proof. intros s. apply bytes_in_sound. vm_compute. reflexivity. Qed.
 
 (* ---------------------------------------------------------------- the repaired languages *)
 
-Theorem ing_rewrite_fixed_safe : safe_strict ing_rewrite_fixed QBare [QBare].
+(* nginx.org/rewrites: glued after  proxy_pass http://upstream  (state QBare) *)
+Theorem ing_rewrite_safe : safe_strict ing_rewrite QBare [QBare].
 Proof. apply safe_strict_by_check. vm_compute. reflexivity. Qed.
+
+(* the same value followed by the template's terminator: exactly one Semi, whatever the value *)
+Corollary ing_rewrite_then_semi : forall s, matches ing_rewrite s = true ->
+    run QBare (s ++ ";") = (QBetween, [TokEnd; Semi]).
+Proof.
+  intros s Hm. destruct (ing_rewrite_safe s Hm) as (q' & Hr & [<-|[]]).
+  rewrite (run_app_eq s ";" QBare QBare [] QBetween [TokEnd; Semi] Hr); reflexivity.
+Qed.
+
+(* nginx.org/limit-req-key: printed at token start after  limit_req_zone  *)
+Theorem limit_req_key_bare_safe : safe_strict limit_req_key QBetween bare_states.
+Proof. apply safe_strict_by_check. vm_compute. reflexivity. Qed.
+
+Theorem ing_rate_word : forall s, matches ing_rate s = true -> in_class CWord s.
+Proof. intros s. apply bytes_in_sound. vm_compute. reflexivity. Qed.
+
+Theorem http_header_name_word : forall s, matches http_header_name s = true -> in_class CWord s.
+Proof. intros s. apply bytes_in_sound. vm_compute. reflexivity. Qed.
 
 Theorem grpc_service_fixed_safe : safe_strict grpc_service_fixed QBare bare_states.
 Proof. apply safe_strict_by_check. vm_compute. reflexivity. Qed.
@@ -168,21 +189,6 @@ Proof. apply safe_strict_by_check. vm_compute. reflexivity. Qed.
 (* ---------------------------------------------------------------- refutations *)
 
 Definition bs1 : string := String ch_bs EmptyString.
-
-(* F27.  ing_rewrite accepts backslash.  The value is glued after  proxy_pass http://upstream  (state
-   QBare) and followed by the template's semicolon: with the accepted value  /x backslash  the
-   semicolon is swallowed (no Semi event), with the benign /x it terminates the directive. *)
-Theorem ing_rewrite_refuted :
-  (exists s, matches ing_rewrite s = true /\
-             run QBare s = (QBareEsc, []) /\
-             structural (snd (run QBare (s ++ ";"))) = []) /\
-  (matches ing_rewrite "/x" = true /\ structural (snd (run QBare ("/x" ++ ";"))) = [Semi]).
-Proof.
-  split; [exists ("/x" ++ bs1)|]; vm_compute; repeat split; reflexivity.
-Qed.
-
-Corollary ing_rewrite_not_safe : ~ safe ing_rewrite QBare bare_states.
-Proof. apply violates_not_safe with ("/x" ++ bs1). vm_compute. reflexivity. Qed.
 
 (* F06.  ing_path accepts the left brace and backslash; the value is printed after  location . *)
 Theorem ing_path_refuted :
@@ -251,7 +257,10 @@ Example find_ts_hash : find_witness 200 ts_hash QBetween (ok_in bare_states) = S
 Proof. vm_compute. reflexivity. Qed.
 Example find_realm : find_witness 200 realm QBare (ok_in bare_states) = Some ";".
 Proof. vm_compute. reflexivity. Qed.
-Example find_ing_rewrite : find_witness 200 ing_rewrite QBare (ok_in bare_states) = Some ("/" ++ bs1).
+(* and finds none for the repaired / new validators *)
+Example find_ing_rewrite : find_witness 200 ing_rewrite QBare (ok_in [QBare]) = None.
+Proof. vm_compute. reflexivity. Qed.
+Example find_limit_req_key : find_witness 200 limit_req_key QBetween (ok_in bare_states) = None.
 Proof. vm_compute. reflexivity. Qed.
 Example find_vs_path : find_witness 200 vs_path QBetween (ok_in bare_states) = None.
 Proof. vm_compute. reflexivity. Qed.
